@@ -279,5 +279,22 @@ ALL = [f4_cancel_failure_after_lapse, f4_update_failure_after_fill, f5_void_afte
        f22_amended_result_after_dead_heat]
 
 
+def nested_batch_begin():
+    """a script opens a transaction block while one is open: the first block is left (and its requests are sent) first -
+    a request accepted in a block is never dropped (the assumption-free form of C12's whole-run theorem)"""
+    ups = [
+        update(T0, two(), acts={"0": [["bbegin", 0], create(0, 0, 1, "BACK", 3.0, 4.0), ["place", "t0", None, False],
+                                      ["bbegin", 0], create(1, 1, 2, "BACK", 3.0, 4.0), ["place", "t1", None, False], ["bend"]]}),
+        update(T0 + 200, two()),
+        update(T0 + 400, two(), acts={"0": [["bbegin", 0], ["cancel", "t0", None, False], ["bbegin", 0], ["cancel", "t1", None, False]]}),
+        update(T0 + 700, two()),
+        update(T0 + 1700, two()),
+    ]
+    return scenario([market(101, ups)])
+
+
+ALL.append(nested_batch_begin)
+
+
 def all_scenarios():
     return [f() for f in ALL]
